@@ -11,6 +11,19 @@
    blockLength's value type (both one of U8 U16 U32 U64), difference_type =
    [dty S] = make_signed<size_type>.
 
+   Dimension header.  The library takes the data start of a group from
+   `sbepp::size_bytes(dimension)`, the size of the whole dimension composite,
+   which may be larger than sizeof(blockLength) + sizeof(numInGroup): SBE 2.0
+   style extra members (numGroups, numVarDataFields), members with explicit
+   `offset=` padding, blockLength / numInGroup in either order.  The header
+   size is therefore a PARAMETER of the model: field [g_hdr] of a group on
+   decoded header values (the iterator algebra never looks inside the header:
+   it receives the decoded blockLength and numInGroup), and a layout [hlay] =
+   (size, offset of blockLength, offset of numInGroup) for the byte-level
+   operations (reading the header, resize/clear, nested groups).
+   [hdr_size S B] / [std_hlay S B] is the special case of the two-member
+   composite "blockLength followed by numInGroup".
+
    Pointers.  A pointer is the signed 64-bit distance (in bytes) from the first
    byte of the buffer the view was created on: [padd p v] is the flat, modular
    address computation every LP64 target performs for `p + v` where [v] is the
@@ -79,7 +92,9 @@ Definition wbytes (t : ity) : nat :=
   end%nat.
 Definition wsize (t : ity) : Z := Z.of_nat (wbytes t).
 
-(* sbepp::size_bytes(dimension): blockLength followed by numInGroup *)
+(* sbepp::size_bytes(dimension) of the two-member dimension composite:
+   blockLength followed by numInGroup (the special case; in general the size
+   is the parameter [g_hdr] / [h_size] below) *)
 Definition hdr_size (S B : ity) : Z := wsize B + wsize S.
 
 Definition padd (p v : Z) : Z := wrap PTRDIFF_T (p + v).
@@ -182,21 +197,23 @@ Definition it_le (a b : iter) : bool := i_idx a <=? i_idx b.
 Record grp : Type := mkGrp {
   g_ptr : Z;   (* address of the group view (= of its dimension header) *)
   g_end : Z;   (* end pointer of the view *)
+  g_hdr : Z;   (* sbepp::size_bytes(dimension): size of the dimension composite *)
   g_bl  : Z;   (* wire blockLength, a value of type B *)
   g_ng  : Z    (* wire numInGroup, a value of type S *)
 }.
 
 (* get_header_tag: SBEPP_SIZE_CHECK(addr, end, 0, size_bytes(header)) *)
 Definition hdr_ok (chk : bool) (S B : ity) (g : grp) : bool :=
-  size_check chk (g_ptr g) (g_end g) (hdr_size S B).
+  size_check chk (g_ptr g) (g_end g) (g_hdr g).
 
 (* size_bytes_tag (fixed):
    size_bytes(dimension) + static_cast<std::size_t>(numInGroup) * blockLength *)
-Definition size_bytes_fixed (S B : ity) (ng bl : Z) : option Z :=
+Definition size_bytes_fixed (S B : ity) (H ng bl : Z) : option Z :=
   obind (cmul SIZE_T B (ccast SIZE_T ng) bl) (fun prod =>
-  cadd SIZE_T (uac SIZE_T B) (hdr_size S B) prod).
+  cadd SIZE_T (uac SIZE_T B) H prod).
 
-Definition g_begin_ptr (S B : ity) (g : grp) : Z := padd (g_ptr g) (hdr_size S B).
+(* addr + sbepp::size_bytes(dimension) *)
+Definition g_begin_ptr (S B : ity) (g : grp) : Z := padd (g_ptr g) (g_hdr g).
 
 (* begin() *)
 Definition g_begin (chk : bool) (S B : ity) (g : grp) : outcome iter :=
@@ -204,10 +221,11 @@ Definition g_begin (chk : bool) (S B : ity) (g : grp) : outcome iter :=
     (GOk (mkIter (g_begin_ptr S B g) (g_bl g) 0 (g_end g))).
 
 Section GroupOps.
-  Variable size_bytes : ity -> ity -> Z -> Z -> option Z.
+  (* S B, header size, numInGroup, blockLength *)
+  Variable size_bytes : ity -> ity -> Z -> Z -> Z -> option Z.
 
   Definition g_size_bytes_g (chk : bool) (S B : ity) (g : grp) : outcome Z :=
-    gassert chk (hdr_ok chk S B g) (of_opt (size_bytes S B (g_ng g) (g_bl g))).
+    gassert chk (hdr_ok chk S B g) (of_opt (size_bytes S B (g_hdr g) (g_ng g) (g_bl g))).
 
   (* end(): iterator{addr + size_bytes, blockLength, size(), end} *)
   Definition g_end_it_g (chk : bool) (S B : ity) (g : grp) : outcome iter :=
@@ -267,9 +285,9 @@ Module Legacy.
     gbind (it_plus S B it n) (fun r => GOk (it_deref r)).
 
   (* size_bytes(dimension) + numInGroup * blockLength *)
-  Definition size_bytes_legacy (S B : ity) (ng bl : Z) : option Z :=
+  Definition size_bytes_legacy (S B : ity) (H ng bl : Z) : option Z :=
     obind (cmul S B ng bl) (fun prod =>
-    cadd SIZE_T (uac S B) (hdr_size S B) prod).
+    cadd SIZE_T (uac S B) H prod).
 
   Definition g_size_bytes := g_size_bytes_g size_bytes_legacy.
   Definition g_end_it := g_end_it_g size_bytes_legacy.
@@ -316,32 +334,45 @@ Definition wr (t : ity) (buf : list Z) (off : Z) (v : Z) : option (list Z) :=
   else Some (firstn (Z.to_nat off) buf ++ enc_le (wbytes t) v
              ++ skipn (Z.to_nat off + wbytes t) buf).
 
+(* layout of a dimension composite: its size (sbepp::size_bytes(dimension),
+   the end of its last member) and the offsets of the two members the group
+   views use.  Anything else in the composite (numGroups, numVarDataFields,
+   padding) is neither read nor written by the group views. *)
+Record hlay : Type := mkHlay {
+  h_size : Z;   (* sbepp::size_bytes(dimension) *)
+  h_bl   : Z;   (* offset of blockLength inside the composite *)
+  h_ng   : Z    (* offset of numInGroup inside the composite *)
+}.
+
+(* the two-member composite: blockLength at 0, numInGroup right after it *)
+Definition std_hlay (S B : ity) : hlay := mkHlay (hdr_size S B) 0 (wsize B).
+
 (* a group view {p, e} on [buf]: get_header_tag, blockLength().value(),
    numInGroup().value() *)
-Definition read_grp (chk : bool) (S B : ity) (buf : list Z) (p e : Z) : outcome grp :=
-  if size_check chk p e (hdr_size S B) then
-    gbind (of_opt (rd B buf p)) (fun bl =>
-    gbind (of_opt (rd S buf (padd p (wsize B)))) (fun ng =>
-    GOk (mkGrp p e bl ng)))
+Definition read_grp (chk : bool) (S B : ity) (L : hlay) (buf : list Z) (p e : Z) : outcome grp :=
+  if size_check chk p e (h_size L) then
+    gbind (of_opt (rd B buf (padd p (h_bl L)))) (fun bl =>
+    gbind (of_opt (rd S buf (padd p (h_ng L)))) (fun ng =>
+    GOk (mkGrp p e (h_size L) bl ng)))
   else GAssert.
 
 (* resize(count): header().numInGroup(count)
    = header size check, then set_value at the offset of numInGroup *)
-Definition g_resize (chk : bool) (S B : ity) (buf : list Z) (p e : Z) (count : Z)
+Definition g_resize (chk : bool) (S B : ity) (L : hlay) (buf : list Z) (p e : Z) (count : Z)
   : outcome (list Z) :=
-  if size_check chk p e (hdr_size S B) then
-    of_opt (wr S buf (padd p (wsize B)) (ccast S count))
+  if size_check chk p e (h_size L) then
+    of_opt (wr S buf (padd p (h_ng L)) (ccast S count))
   else GAssert.
 
 (* clear(): resize(0) *)
-Definition g_clear (chk : bool) (S B : ity) (buf : list Z) (p e : Z) : outcome (list Z) :=
-  g_resize chk S B buf p e 0.
+Definition g_clear (chk : bool) (S B : ity) (L : hlay) (buf : list Z) (p e : Z) : outcome (list Z) :=
+  g_resize chk S B L buf p e 0.
 
 (* ------------------------------------------------------------------ *)
 (* nested_group_base / forward_iterator                                *)
 (* entries of the harness schema: a block of (wire) blockLength bytes  *)
 (* followed by one flat group with the standard uint16/uint16          *)
-(* groupSizeEncoding dimension                                         *)
+(* groupSizeEncoding dimension; the OUTER dimension has any layout [L] *)
 (* ------------------------------------------------------------------ *)
 
 (* sbepp::size_bytes(entry) as generated:
@@ -349,7 +380,7 @@ Definition g_clear (chk : bool) (S B : ity) (buf : list Z) (p e : Z) : outcome (
      return addressof(last) + size_bytes(last) - addressof(entry);       *)
 Definition entry_size (chk : bool) (buf : list Z) (p bl e : Z) : outcome Z :=
   let ip := padd p bl in
-  gbind (read_grp chk U16 U16 buf ip e) (fun ig =>
+  gbind (read_grp chk U16 U16 (std_hlay U16 U16) buf ip e) (fun ig =>
   gbind (g_size_bytes chk U16 U16 ig) (fun isz =>
   GOk (ccast SIZE_T (wrap PTRDIFF_T (padd ip isz - p))))).
 
@@ -364,14 +395,14 @@ Definition n_inc (chk : bool) (S B : ity) (buf : list Z) (it : iter) : outcome i
   else GAssert).
 
 (* nested begin(): iterator{addr + size_bytes(dimension), 0, blockLength, end} *)
-Definition n_begin (chk : bool) (S B : ity) (buf : list Z) (p e : Z) : outcome iter :=
-  gbind (read_grp chk S B buf p e) (fun g =>
+Definition n_begin (chk : bool) (S B : ity) (L : hlay) (buf : list Z) (p e : Z) : outcome iter :=
+  gbind (read_grp chk S B L buf p e) (fun g =>
   GOk (mkIter (g_begin_ptr S B g) (g_bl g) 0 e)).
 
 (* nested end(): iterator{nullptr, numInGroup, blockLength, end}; only its
    index is ever looked at *)
-Definition n_end_idx (chk : bool) (S B : ity) (buf : list Z) (p e : Z) : outcome Z :=
-  gbind (read_grp chk S B buf p e) (fun g => GOk (g_ng g)).
+Definition n_end_idx (chk : bool) (S B : ity) (L : hlay) (buf : list Z) (p e : Z) : outcome Z :=
+  gbind (read_grp chk S B L buf p e) (fun g => GOk (g_ng g)).
 
 (* for(auto entry : group): the addresses of the entries visited.
    [fuel] bounds the walk (the caller passes numInGroup) *)
@@ -386,9 +417,9 @@ Fixpoint n_walk (chk : bool) (S B : ity) (buf : list Z) (fuel : nat) (endidx : Z
     GOk (it_deref it :: rest)))
   end.
 
-Definition n_entries (chk : bool) (S B : ity) (buf : list Z) (p e : Z) : outcome (list Z) :=
-  gbind (n_begin chk S B buf p e) (fun b =>
-  gbind (n_end_idx chk S B buf p e) (fun ei =>
+Definition n_entries (chk : bool) (S B : ity) (L : hlay) (buf : list Z) (p e : Z) : outcome (list Z) :=
+  gbind (n_begin chk S B L buf p e) (fun b =>
+  gbind (n_end_idx chk S B L buf p e) (fun ei =>
   n_walk chk S B buf (Z.to_nat ei) ei b)).
 
 (* the wire image (specification side): concatenation, no pointers *)
@@ -402,10 +433,14 @@ Record nentry : Type := mkNEntry {
 Definition enc_entry (en : nentry) : list Z :=
   ne_block en ++ enc_le 2 (ne_ibl en) ++ enc_le 2 (ne_icnt en) ++ ne_ipay en.
 
+(* the two-member dimension header (layout [std_hlay S B]) *)
 Definition enc_dim (S B : ity) (bl ng : Z) : list Z :=
   enc_le (wbytes B) bl ++ enc_le (wbytes S) ng.
 
-Definition enc_nested (S B : ity) (bl : Z) (es : list nentry) : list Z :=
-  enc_dim S B bl (Z.of_nat (length es)) ++ concat (map enc_entry es).
+(* a nested group on the wire: the bytes of its dimension composite ([hdr]:
+   any [h_size L] bytes that hold blockLength at [h_bl L] and numInGroup at
+   [h_ng L]) followed by the entries *)
+Definition enc_nested (hdr : list Z) (es : list nentry) : list Z :=
+  hdr ++ concat (map enc_entry es).
 
 End GI.
